@@ -1,0 +1,207 @@
+//go:build verif
+
+// Copyright Istio Authors
+//
+// Licensed under the Apache License, Version 2.0 (the "License");
+// you may not use this file except in compliance with the License.
+// You may obtain a copy of the License at
+//
+//     http://www.apache.org/licenses/LICENSE-2.0
+//
+// Unless required by applicable law or agreed to in writing, software
+// distributed under the License is distributed on an "AS IS" BASIS,
+// WITHOUT WARRANTIES OR CONDITIONS OF ANY KIND, either express or implied.
+// See the License for the specific language governing permissions and
+// limitations under the License.
+
+package model
+
+import (
+	discovery "github.com/envoyproxy/go-control-plane/envoy/service/discovery/v3"
+
+	v3 "istio.io/istio/pilot/pkg/xds/v3"
+	"istio.io/istio/pkg/util/sets"
+	"istio.io/istio/pkg/verif"
+	"istio.io/istio/pkg/xds"
+)
+
+// ---------------------------------------------------------------------------------------------
+// C04 / C05: request / ACK / NACK classification (state-of-the-world), verified on the real
+// composition of xds.ShouldRespond with the Watcher implementation *model.Proxy.
+// ---------------------------------------------------------------------------------------------
+
+// wrRecords is the server's record of the client's subscriptions: type URL -> record.
+func wrHas(node *Proxy, url string) bool {
+	_, ok := node.WatchedResources[url]
+	return ok
+}
+
+// wrInv: the subscription table is initialised, holds no nil record and no record twice.
+func wrInv(node *Proxy) bool {
+	return node != nil && node.WatchedResources != nil &&
+		verif.Forall(func(u string) bool { return !wrHas(node, u) || node.WatchedResources[u] != nil }) &&
+		verif.Forall(func(u string) bool {
+			return verif.Forall(func(w string) bool {
+				return u == w || !wrHas(node, u) || !wrHas(node, w) || node.WatchedResources[u] != node.WatchedResources[w]
+			})
+		})
+}
+
+func inNames(names []string, x string) bool {
+	return verif.Exists(func(i int) bool { return 0 <= i && i < len(names) && names[i] == x })
+}
+
+// wrSameExceptError: record r holds what it held before the call, except possibly LastError.
+func wrSameExceptError(r *WatchedResource) bool {
+	return r.TypeUrl == verif.Old(func() string { return r.TypeUrl }) &&
+		verif.Same(r.ResourceNames, verif.Old(func() sets.String { return r.ResourceNames })) &&
+		verif.Forall(func(x string) bool {
+			return hasKey(r.ResourceNames, x) == verif.Old(func() bool { return hasKey(r.ResourceNames, x) })
+		}) &&
+		r.Wildcard == verif.Old(func() bool { return r.Wildcard }) &&
+		r.NonceSent == verif.Old(func() string { return r.NonceSent }) &&
+		r.NonceAcked == verif.Old(func() string { return r.NonceAcked }) &&
+		r.AlwaysRespond == verif.Old(func() bool { return r.AlwaysRespond })
+}
+
+func wrSame(r *WatchedResource) bool {
+	return wrSameExceptError(r) && r.LastError == verif.Old(func() string { return r.LastError })
+}
+
+// othersSame: every record of another type is the same object with the same content.
+func othersSame(node *Proxy, url string) bool {
+	return verif.Forall(func(u string) bool {
+		return u == url || (wrHas(node, u) == verif.Old(func() bool { return wrHas(node, u) }) &&
+			node.WatchedResources[u] == verif.Old(func() *WatchedResource { return node.WatchedResources[u] }) &&
+			(!wrHas(node, u) || wrSame(node.WatchedResources[u])))
+	})
+}
+
+// othersSameButWarming: as othersSame, except that a first request for clusters marks the endpoint
+// record "always respond" (so that Envoy can finish warming).
+func othersSameButWarming(node *Proxy, url string) bool {
+	return verif.Forall(func(u string) bool {
+		if u == url {
+			return true
+		}
+		if wrHas(node, u) != verif.Old(func() bool { return wrHas(node, u) }) ||
+			node.WatchedResources[u] != verif.Old(func() *WatchedResource { return node.WatchedResources[u] }) {
+			return false
+		}
+		if !wrHas(node, u) {
+			return true
+		}
+		r := node.WatchedResources[u]
+		if url == v3.ClusterType && u == v3.EndpointType {
+			return wrSameExceptAlways(r) && r.AlwaysRespond
+		}
+		return wrSame(r)
+	})
+}
+
+func wrSameExceptAlways(r *WatchedResource) bool {
+	return r.TypeUrl == verif.Old(func() string { return r.TypeUrl }) &&
+		verif.Same(r.ResourceNames, verif.Old(func() sets.String { return r.ResourceNames })) &&
+		verif.Forall(func(x string) bool {
+			return hasKey(r.ResourceNames, x) == verif.Old(func() bool { return hasKey(r.ResourceNames, x) })
+		}) &&
+		r.Wildcard == verif.Old(func() bool { return r.Wildcard }) &&
+		r.NonceSent == verif.Old(func() string { return r.NonceSent }) &&
+		r.NonceAcked == verif.Old(func() string { return r.NonceAcked }) &&
+		r.LastError == verif.Old(func() string { return r.LastError })
+}
+
+//verif:lemma
+//verif:prop C04 C05
+func lemmaShouldRespond(node *Proxy, id string, request *discovery.DiscoveryRequest) {
+	verif.Requires("subscription-table-well-formed", wrInv(node))
+	verif.Requires("request-non-nil", request != nil)
+	verif.Assume("emptyResourceDelta is the zero ResourceDelta (package variable, never reassigned)", xds.VerifEmptyDeltaIsZero())
+
+	url := request.TypeUrl
+	nonce := request.ResponseNonce
+	prev := node.WatchedResources[url]
+	had := wrHas(node, url)
+	nack := request.ErrorDetail != nil
+	wild := xds.IsWildcardTypeURL(url)
+	unsub := !nack && len(request.ResourceNames) == 0 && !wild
+	var prevNonceSent string
+	var prevAlways bool
+	var prevNames sets.String
+	if had {
+		prevNonceSent = prev.NonceSent
+		prevAlways = prev.AlwaysRespond
+		prevNames = prev.ResourceNames
+	}
+	snap := verif.Snapshot()
+
+	respond, delta := xds.ShouldRespond(node, id, request)
+
+	verif.Assert("subscription-table-well-formed", wrInv(node))
+
+	// from the statement: "stays silent ... on a NACK"; the record of the subscription is kept
+	if nack {
+		verif.Assert("nack-silent", !respond && delta.IsEmpty())
+		verif.Assert("nack-keeps-record", wrHas(node, url) == had && node.WatchedResources[url] == prev &&
+			(!had || verif.Since(snap, func() bool { return wrSameExceptError(prev) })))
+		verif.Assert("nack-others-untouched", verif.Since(snap, func() bool { return othersSame(node, url) }))
+		return
+	}
+	// an empty non-wildcard request unsubscribes
+	if unsub {
+		verif.Assert("unsubscribe-silent", !respond && delta.IsEmpty())
+		verif.Assert("unsubscribe-deletes-record", !wrHas(node, url))
+		verif.Assert("unsubscribe-others-untouched", verif.Since(snap, func() bool { return othersSame(node, url) }))
+		return
+	}
+	// from the statement: "responds to a first request ... and to a reconnect" (no record on this
+	// stream: respond whatever nonce the client presents)
+	if nonce == "" || !had {
+		verif.Assert("first-or-reconnect-responds", respond && delta.IsEmpty())
+		rec := node.WatchedResources[url]
+		verif.Assert("first-or-reconnect-records-request", wrHas(node, url) && rec != nil && verif.FreshSince(snap, rec) && rec.TypeUrl == url &&
+			rec.NonceSent == "" && rec.NonceAcked == "" && !rec.AlwaysRespond &&
+			verif.Forall(func(x string) bool { return hasKey(rec.ResourceNames, x) == inNames(request.ResourceNames, x) }))
+		verif.Assert("first-or-reconnect-others-untouched", verif.Since(snap, func() bool { return othersSameButWarming(node, url) }))
+		return
+	}
+	// from the statement: "stays silent ... on a request carrying a stale nonce"
+	if nonce != prevNonceSent {
+		verif.Assert("stale-nonce-silent", !respond && delta.IsEmpty())
+		verif.Assert("stale-nonce-keeps-record", wrHas(node, url) && node.WatchedResources[url] == prev && verif.Since(snap, func() bool { return wrSame(prev) }))
+		verif.Assert("stale-nonce-others-untouched", verif.Since(snap, func() bool { return othersSame(node, url) }))
+		return
+	}
+	// nonce matches what was sent: an ACK, possibly changing the subscription
+	added := verif.Exists(func(x string) bool { return inNames(request.ResourceNames, x) && !hasKey(prevNames, x) })
+	removed := verif.Exists(func(x string) bool {
+		return verif.At(snap, func() bool { return hasKey(prevNames, x) }) && !inNames(request.ResourceNames, x)
+	})
+	_ = removed
+	verif.Assert("ack-record-is-last-ask", wrHas(node, url) && node.WatchedResources[url] == prev &&
+		verif.Forall(func(x string) bool { return hasKey(prev.ResourceNames, x) == inNames(request.ResourceNames, x) }))
+	verif.Assert("ack-bookkeeping", prev.NonceAcked == nonce && !prev.AlwaysRespond && prev.LastError == "" && prev.NonceSent == prevNonceSent)
+	// from the statement: "responds ... to a request that adds names", "stays silent on an ACK"
+	verif.Assert("ack-adds-names-responds", !added || respond)
+	verif.Assert("ack-warming-responds", !prevAlways || (respond && delta.IsEmpty()))
+	verif.Assert("pure-ack-silent", added || prevAlways || removed || !respond)
+	// from the code (the statement is silent): a request that only drops names is answered for wildcard types only
+	verif.Assert("ack-removal-only", added || prevAlways || !removed || respond == wild)
+	verif.Assert("ack-delta-is-added", !respond || prevAlways || verif.Forall(func(x string) bool {
+		return hasKey(delta.Subscribed, x) == (inNames(request.ResourceNames, x) && !verif.At(snap, func() bool { return hasKey(prevNames, x) }))
+	}))
+	verif.Assert("ack-others-untouched", verif.Since(snap, func() bool { return othersSame(node, url) }))
+}
+
+// Loop of NewWatchedResource over the warming dependencies: the only thing it may change is the
+// "always respond" mark of the existing endpoint record, and only for a cluster request.
+//
+//verif:invariant (*Proxy).NewWatchedResource 1
+func invNewWatchedResource(node *Proxy, typeURL string, rangeindex int) bool {
+	return (rangeindex < 0 || typeURL != v3.ClusterType || !wrHas(node, v3.EndpointType) || node.WatchedResources[v3.EndpointType].AlwaysRespond) &&
+		node.WatchedResources[typeURL] != nil && verif.Fresh(node.WatchedResources[typeURL]) && !node.WatchedResources[typeURL].AlwaysRespond &&
+		verif.Forall(func(r *WatchedResource) bool {
+			return verif.Fresh(r) || r.AlwaysRespond == verif.Old(func() bool { return r.AlwaysRespond }) ||
+				(typeURL == v3.ClusterType && wrHas(node, v3.EndpointType) && r == node.WatchedResources[v3.EndpointType] && r.AlwaysRespond)
+		})
+}
